@@ -11,6 +11,7 @@ Scenario.generate once per RNG branch; the set of observed value vectors must eq
 of vectors the spec prints, and supportInterval of every node must contain the spec's
 [min, max] or be unknown."""
 
+import gc
 import json
 import os
 import sys
@@ -61,11 +62,21 @@ def uniform_values(a, b):
     return [(a, Fraction(1, 4)), ((a + b) / 2, Fraction(1, 2)), (b, Fraction(1, 4))]
 
 
+_frozen = False
+
+
 def real_run(item):
     """Worker: compile the program with the real Scenic, enumerate every RNG branch of
     Scenario.generate, return the set of observed value vectors and the support intervals."""
+    global _frozen
     text, meta = item
     import scenic
+
+    if not _frozen:
+        # keep the cyclic GC away from the heap inherited from the parent: every collection would
+        # touch (copy-on-write) all of it, and page faults are expensive on this box
+        gc.freeze()
+        _frozen = True
     from scenic.core.distributions import RejectionException, supportInterval
 
     out = {"vectors": [], "support": {}, "branches": 0}
@@ -217,7 +228,10 @@ def main(tier):
 
     run_idx = [i for i, (w, _r) in enumerate(pyres) if w == "ok"]
     run_items = [item_of(cases[i]) for i in run_idx]
+    gc.collect()
+    gc.freeze()
     real = dict(zip(run_idx, pmap(real_run, run_items)))
+    gc.unfreeze()
     item = dict(zip(run_idx, run_items))
 
     # ---- TLC: every case x every assignment
